@@ -2,6 +2,7 @@ package main
 
 import (
 	"fmt"
+	"go/constant"
 	"strings"
 
 	"golang.org/x/tools/go/ssa"
@@ -93,6 +94,14 @@ func c17(c *Check) {
 							ev = strings.TrimSuffix(strings.TrimSuffix(ev, ")"), `"`)
 						}
 					}
+					if ev == "" {
+						// name → handler table: the registration is a literal entry `"Voted": hook.HandleVoted` of a local
+						// map that the loop over the ABI's events consults with the event's own name, storing the result
+						// under that event's id
+						if k, ok := mu.Key.(*ssa.Const); ok && k.Value != nil && k.Value.Kind() == constant.String && tableConsulted(mu.Map) {
+							ev = constant.StringVal(k.Value)
+						}
+					}
 					nreg++
 					// the handler parses the same event name
 					parsed := ""
@@ -136,4 +145,77 @@ func c17(c *Check) {
 	for _, cs := range c.P.CallsIn(burn) {
 		c.Req(!strings.HasSuffix(cs.Name, ").BurnCoins"), "C17/wiring", "BurnCoins does not call the embedded BurnCoins ("+cs.Name+")", cs.Ins.Pos(), "", "OverwriteBankKeeper.BurnCoins calls "+cs.Name)
 	}
+}
+
+// tableConsulted: the map is looked up (comma-ok) with the key of a range over another map (the ABI's events by name), and
+// the value found is stored into a map under a key taken from the element of that same range.
+func tableConsulted(m ssa.Value) bool {
+	refs := m.Referrers()
+	if refs == nil {
+		return false
+	}
+	for _, r := range *refs {
+		lk, ok := r.(*ssa.Lookup)
+		if !ok || !lk.CommaOk || lk.X != m {
+			continue
+		}
+		ex, ok := lk.Index.(*ssa.Extract)
+		if !ok {
+			continue
+		}
+		nx, ok := ex.Tuple.(*ssa.Next)
+		if !ok || ex.Index != 1 {
+			continue
+		}
+		if lk.Referrers() == nil {
+			continue
+		}
+		for _, u := range *lk.Referrers() {
+			val, ok := u.(*ssa.Extract)
+			if !ok || val.Index != 0 || val.Referrers() == nil {
+				continue
+			}
+			for _, w := range *val.Referrers() {
+				if st, ok := w.(*ssa.MapUpdate); ok && st.Value == ssa.Value(val) && st.Map != m && dependsOnNext(st.Key, nx, 0) {
+					return true
+				}
+			}
+		}
+	}
+	return false
+}
+
+func dependsOnNext(v ssa.Value, nx *ssa.Next, depth int) bool {
+	if depth > 6 || v == nil {
+		return false
+	}
+	switch t := v.(type) {
+	case *ssa.Extract:
+		return t.Tuple == ssa.Value(nx) || dependsOnNext(t.Tuple, nx, depth+1)
+	case *ssa.Field:
+		return dependsOnNext(t.X, nx, depth+1)
+	case *ssa.FieldAddr:
+		return dependsOnNext(t.X, nx, depth+1)
+	case *ssa.UnOp:
+		return dependsOnNext(t.X, nx, depth+1)
+	case *ssa.Alloc:
+		if t.Referrers() != nil {
+			for _, r := range *t.Referrers() {
+				if st, ok := r.(*ssa.Store); ok && st.Addr == ssa.Value(t) && dependsOnNext(st.Val, nx, depth+1) {
+					return true
+				}
+			}
+		}
+	case *ssa.Call:
+		for _, a := range t.Call.Args {
+			if dependsOnNext(a, nx, depth+1) {
+				return true
+			}
+		}
+	case *ssa.Convert:
+		return dependsOnNext(t.X, nx, depth+1)
+	case *ssa.ChangeType:
+		return dependsOnNext(t.X, nx, depth+1)
+	}
+	return false
 }
